@@ -382,7 +382,6 @@ def one_history(ctx, hseed):
 
 
 # ----------------------------------------------------------------------------- (c) twin projects
-CRLF_FILES = False   # switched on once the stale-newlines defect (found by the C16 check) is repaired
 
 
 def _abs_lists(project):
@@ -403,6 +402,13 @@ def twin_history(ctx, hseed):
     rp = {"kind": "twin", "hseed": hseed, "base_seed": ctx.seed, "ops": []}
     limit = rng.choice([2, 3, 100, 100, 100])
     kw = dict(save_history=True, save_objectdb=True, max_history_items=limit)
+    # files with CRLF / CR line ends and a declared Latin-1 encoding exist from the start: edits of them
+    # that are undone or redone after a reopen must restore the exact bytes
+    for root in (ra, rb):
+        with open(os.path.join(root, "w.py"), "wb") as f:
+            f.write(b"x = 1\r\ny = 2\r\n")
+        with open(os.path.join(root, "c.py"), "wb") as f:
+            f.write(b"# -*- coding: latin-1 -*-\rs = '\xe9'\r")
     A = Project(ra, **kw)
     B = Project(rb, **kw)
     counter = [0]
